@@ -328,6 +328,69 @@ theorem C13_extend_from_slices_copy {c : Cfg} (hc : CfgOK c) {v : VS} {xs : List
     (extendFromSlicesCopy c v srcs w = (v, w, none) ∧ rawReserve c v v.len (srcs.map List.length).sum = none) :=
   extendFromSlicesCopy_spec hc h srcs w
 
+/-- the total the code computes: `slices.iter().try_fold(0, |t, s| t.checked_add(s.len()))` (after fix F11; the pinned code
+summed with a wrapping `usize` sum) -/
+def checkedTotal : List (List Elem) → Option Nat
+  | [] => some 0
+  | s :: ss => (checkedTotal ss).bind fun t => checkedAdd s.length t
+
+theorem checkedTotal_some {srcs : List (List Elem)} {t : Nat} (h : checkedTotal srcs = some t) :
+    t = (srcs.map List.length).sum ∧ t < USIZE := by
+  induction srcs generalizing t with
+  | nil => simp [checkedTotal] at h; subst h; simp [USIZE]
+  | cons s ss ih =>
+    simp only [checkedTotal] at h
+    cases ht : checkedTotal ss with
+    | none => simp [ht] at h
+    | some t' =>
+      simp only [ht, Option.bind_some, checkedAdd] at h
+      split at h
+      · have := (ih ht).1
+        simp at h; subst h
+        constructor
+        · simp [this]
+        · assumption
+      · simp at h
+
+theorem checkedTotal_none {srcs : List (List Elem)} (h : checkedTotal srcs = none) : USIZE ≤ (srcs.map List.length).sum := by
+  induction srcs with
+  | nil => simp [checkedTotal] at h
+  | cons s ss ih =>
+    simp only [checkedTotal] at h
+    cases ht : checkedTotal ss with
+    | none => have := ih ht; simp; omega
+    | some t' =>
+      simp only [ht, Option.bind_some, checkedAdd] at h
+      have := (checkedTotal_some ht).1
+      split at h
+      · simp at h
+      · simp; omega
+
+/-- C19 for `extend_from_slices_copy` (F11): a total element count that `usize` cannot represent is refused — the call
+panics and neither the vector nor the world changes — whatever the element size (zero included) and whatever is already in
+the vector.  With `checkedTotal_none` this covers exactly the inputs on which the code's checked sum gives up. -/
+theorem C19_extend_from_slices_copy_total_overflow (c : Cfg) (v : VS) (srcs : List (List Elem)) (w : W)
+    (h : USIZE ≤ (srcs.map List.length).sum) :
+    extendFromSlicesCopy c v srcs w = (v, w, none) := by
+  have hw : wsub (capOf c v) v.len < USIZE := by unfold wsub; exact Nat.mod_lt _ (by simp [USIZE])
+  have h1 : ¬ (wsub (capOf c v) v.len ≥ (srcs.map List.length).sum) := by omega
+  have h2 : checkedAdd v.len (srcs.map List.length).sum = none := by
+    unfold checkedAdd; rw [if_neg]; omega
+  unfold extendFromSlicesCopy rawReserve reserveGen
+  rw [if_neg h1]
+  unfold reserveInternal amortizedNewCap
+  simp [h2]
+
+/-- and the same total below `usize::MAX` is *not* refused by the sum: whether the call panics is then `reserve`'s decision
+(`C13_extend_from_slices_copy`) -/
+theorem checkedTotal_eq_some_of_lt {srcs : List (List Elem)} (h : (srcs.map List.length).sum < USIZE) :
+    checkedTotal srcs = some (srcs.map List.length).sum := by
+  cases ht : checkedTotal srcs with
+  | none => have := checkedTotal_none ht; omega
+  | some t => rw [(checkedTotal_some ht).1]
+
+example : checkedTotal [[⟨1, 1⟩, ⟨2, 2⟩], [⟨3, 3⟩]] = some 3 := by decide
+
 /-- `io::Write::write` / `write_all` on a `Vec<u8>`: the bytes are appended, `write` reports
 `buf.len()`; `flush` is a no-op -/
 theorem C13_io_write {c : Cfg} (hc : CfgOK c) {v : VS} {xs : List Elem} (h : RepB c v xs) (buf : List Elem) (w : W) :
@@ -442,6 +505,8 @@ end Bump.V.C13
 #print axioms Bump.V.C13.C13_resize_shrink
 #print axioms Bump.V.C13.C13_extend_from_slice_copy
 #print axioms Bump.V.C13.C13_extend_from_slices_copy
+#print axioms Bump.V.C13.C19_extend_from_slices_copy_total_overflow
+#print axioms Bump.V.C13.checkedTotal_none
 #print axioms Bump.V.C13.C13_io_write
 #print axioms Bump.V.C13.C13_dedup_by
 #print axioms Bump.V.C13.C13_dedup
